@@ -461,6 +461,24 @@ func c07Jobs(x *mon.Ctx, base *world.World) []*world.Case {
 			}
 		}
 	}
+	// an ISVSVN threshold that is not an integer: the first level (UpToDate) asks for the report's ISVSVN plus a fraction, the level
+	// the report reaches is second and OutOfDate. Refusing the document, or reading v+0.5 as above v, both refuse the quote;
+	// cutting the fraction off does not
+	for _, frac := range []string{".5", ".000001", ".999999", ".5e0", "5e-1"} {
+		w := base.Clone()
+		v := uint32(base.P.QeIsvSvn)
+		w.Qe.Levels = []world.IsvLevel{{Isv: 4000000000, Status: "UpToDate"}, {Isv: 0, Status: "OutOfDate"}}
+		js := w.Qe.JSON()
+		num := fmt.Sprint(v) + frac
+		if frac == "5e-1" {
+			num = fmt.Sprint(v*10+5) + "e-1"
+		}
+		js = strings.Replace(js, `"isvsvn":4000000000`, `"isvsvn":`+num, 1)
+		w.QeBody = world.SignedBody("enclaveIdentity", js, w.PKI.TcbSign.Key)
+		c := w.Case(world.LColl, "level-isvsvn-with-a-fraction", num)
+		c.Expect, c.Twin = "reject", "twin"
+		out = append(out, c)
+	}
 	// report ISVSVN moved against fixed levels (byte-order traps)
 	for _, v := range []uint16{0, 1, 0x00ff, 0x0100, 0xff00, 0xffff} {
 		for _, lv := range []uint32{0, 1, 0x00ff, 0x0100, 0xff00, 0xffff} {
@@ -562,6 +580,7 @@ func c07(x *mon.Ctx) {
 	x.Require("deciding-level-with-odd-tcbdate", 0, 27, 36)
 	x.Require("unsigned-member-completes-signed-identity", 0, 30, 30)
 	x.Require("message-isvsvn-wider-than-signed", 0, 6, 6)
+	x.Require("level-isvsvn-with-a-fraction", 0, 5, 5)
 	x.Require("header-fields-are-not-the-qe-reports", 15, 30, 60)
 	x.Require("levels-1", 2, 19, 21)
 	x.Require("levels-2", 40, 380, 441)
